@@ -101,6 +101,7 @@ class Tr:
         if k == 'DeclStmt':
             out = ''
             for v in s['inner']:
+                if v['kind'] != 'VarDecl': continue   # static_assert, using, typedef: no run-time meaning
                 self.locals.add(v['name'])
                 init = v['inner'][0]
                 if init['kind'] == 'InitListExpr':   # constant table
